@@ -174,9 +174,9 @@ theorem stackTrue_flattenS (rx : RxEngine) (c : Tm) :
 
 /-- per-element verdict of the repaired model on the program of a well-formed tree -/
 theorem matchElem_flatten (rx : RxEngine) (t : Tm) (hwf : t.wf = true) (elem root : Val) :
-    matchElem Dev.fixed rx (flatten t) elem root =
+    matchGeneral Dev.fixed rx (flatten t) elem root =
       .ok ((Spec.choices elem root t).any fun c => Spec.isTrue (Spec.eval rx c)) := by
-  unfold matchElem
+  unfold matchGeneral
   have hr := resolve_flatten elem root t hwf []
   simp only [List.append_nil, resolve] at hr
   rw [hr, matchResolved_any Dev.fixed rfl rx _ (rflat_ne_nil elem root t hwf), prod_rflat elem root t hwf,
